@@ -171,6 +171,20 @@ fn family_match(r: &mut StdRng, scn: usize, fam: &str, n_req: usize, out: &mut V
       }));
     }
   }
+  // regular expressions as the whole query (inside random trees their effect is mostly masked)
+  if fam == "query" {
+    for _ in 0..8 {
+      let re = gen_re(r);
+      let q = Q::Regex { field: pick(r, &TEXT_FIELDS).to_string(), value: re.render(true), re, cap: Some(100), boost: None };
+      let req = base_request(&q, None, n_slots + 5, *pick(r, &["bm25", "wand"]));
+      let res = run_search(&reader, &req);
+      searches.push(json!({
+        "ev": "search", "check": "match", "prop": "C07", "note": "regex",
+        "q": abstract_query(&b.schema, &q, &default_fields(), true, 1.0, &mut dict),
+        "filters": [], "obs": obs_ids(&res), "req": req.to_string(),
+      }));
+    }
+  }
   let mut phrases = if fam == "query" { boundary_phrases(&b, r, 4) } else { Vec::new() };
   for _ in 0..n_req {
     let (q, filt) = if fam == "filter" {
